@@ -58,10 +58,14 @@ def verify_contract(name, timeout_ms=20000, repo_root=None, want_model=True, var
                 grouped[ob.name] = []
                 order.append(ob.name)
             grouped[ob.name].append(ob)
+        c0 = sym.counter_value()
         for nm in order:
             worst, secs, detail, model, nsub, kind = 'proved', 0.0, None, None, 0, None
             for ob in grouped[nm]:
-                r = solver.prove(ob, timeout_ms=timeout_ms, global_axioms=ax, want_model=want_model)
+                # every obligation is elaborated with the same fresh-name sequence whatever happened to the
+                # obligations before it (solver heuristics are sensitive to names)
+                sym.set_counter(c0 + 1)
+                r = _prove_isolated(ob, timeout_ms, ax, want_model)
                 secs += r.seconds
                 nsub += max(1, r.nsub)
                 kind = r.kind
@@ -85,6 +89,37 @@ def verify_contract(name, timeout_ms=20000, repo_root=None, want_model=True, var
     return out
 
 
+def _prove_isolated(ob, timeout_ms, ax, want_model):
+    """Prove one obligation in a forked child: every obligation starts from exactly the state
+    left by the symbolic execution, whatever happened while proving the others (timeouts change
+    control flow, which changes term ids and names, which changes solver behaviour)."""
+    import pickle
+    rfd, wfd = os.pipe()
+    pid = os.fork()
+    if pid == 0:
+        try:
+            os.close(rfd)
+            try:
+                r = solver.prove(ob, timeout_ms=timeout_ms, global_axioms=ax, want_model=want_model)
+                payload = r.to_dict()
+            except Exception as e:       # includes Unsupported raised while elaborating
+                payload = dict(name=ob.name, status='unknown', seconds=0.0, detail='elaboration failed: %s: %s' % (type(e).__name__, e),
+                               model=None, kind=ob.kind, subqueries=1, backend='z3')
+            with os.fdopen(wfd, 'wb') as f:
+                pickle.dump(payload, f)
+        finally:
+            os._exit(0)
+    os.close(wfd)
+    with os.fdopen(rfd, 'rb') as f:
+        data = f.read()
+    os.waitpid(pid, 0)
+    try:
+        d = pickle.loads(data)
+    except Exception:
+        d = dict(name=ob.name, status='unknown', seconds=0.0, detail='prover process died', model=None, kind=ob.kind, subqueries=1, backend='z3')
+    return solver.Result(d['name'], d['status'], d['seconds'], d['detail'], d['model'], d['kind'], d['subqueries'], d['backend'])
+
+
 def _worker(args):
     name, variant, timeout_ms, repo_root = args
     return verify_contract(name, timeout_ms, repo_root, variant=variant)
@@ -100,7 +135,8 @@ def verify_many(names, timeout_ms=20000, repo_root=None, procs=None):
     if procs <= 1 or len(tasks) == 1:
         return [_worker(t) for t in tasks]
     ctx = multiprocessing.get_context('fork')
-    with ctx.Pool(procs) as pool:
+    # one fresh process per task: a verification never depends on what its worker did before
+    with ctx.Pool(procs, maxtasksperchild=1) as pool:
         return pool.map(_worker, tasks, chunksize=1)
 
 
